@@ -21,6 +21,11 @@ type Variant struct {
 	Faults  int    `json:"faults"`       // max injected failing ledger calls per commit (each commit retried until success)
 	Warm    bool   `json:"warm"`         // run a throw-away workload first so that pooled objects are reused
 	SkipRej bool   `json:"skiprejected"` // leave out the requests that a first pass saw rejected (C18)
+	// nested histories that carry the model's own persistence events (commit, cache drop - handles retired as the model says):
+	// "" (run them as they are) | "drops" (leave out the cache drops) | "all" (leave out commits and drops: one commit at the
+	// end) | "reopen" (every cache drop becomes an abandon-and-reopen)
+	Strip string `json:"strip"`
+	KeepP bool   `json:"keeppersist"` // the history's own persistence events are kept (and treated according to Strip)
 }
 
 type RunRec struct {
@@ -34,6 +39,9 @@ type RunRec struct {
 	Retries int      `json:"retries"`
 	Errors  []string `json:"errors"` // anything unexpected (commit did not converge, reopen failed, ...)
 	Kind    string   `json:"kind"`
+	Cold    []string `json:"cold"` // final content read by a brand-new storage from the registers alone
+	WarmC   []string `json:"warmc"` // content read through the live storage right after every successful commit ...
+	ColdC   []string `json:"coldc"` // ... and by a brand-new storage over a copy of the ledger at the same moments
 }
 
 func resToken(ev string, r Res) string {
@@ -42,7 +50,7 @@ func resToken(ev string, r Res) string {
 
 func absToken(a AbsElem) string {
 	var sb strings.Builder
-	fmt.Fprintf(&sb, "%s%d.%d", a.C, a.W, a.V)
+	fmt.Fprintf(&sb, "%s%d.%d%s", a.C, a.W, a.V, a.Ti) // kind, wrapper levels, element / value id, type info (containers)
 	if len(a.Sub) > 0 {
 		sb.WriteString("[")
 		for i, s := range a.Sub {
@@ -69,6 +77,7 @@ func (w *World) commitUntilSuccess(mode string, workers, faults int, rng *rand.R
 		w.lastCalls = nil
 		rr.Commits++
 		if res.Class == "ok" {
+			w.coldVsWarm(rr)
 			return
 		}
 		rr.Retries++
@@ -77,6 +86,30 @@ func (w *World) commitUntilSuccess(mode string, workers, faults int, rng *rand.R
 		}
 	}
 	rr.Errors = append(rr.Errors, "commit did not converge after 50 retries")
+}
+
+// coldVsWarm records, at a commit point, the content as the live storage serves it and as a brand-new storage decodes it.
+func (w *World) coldVsWarm(rr *RunRec) {
+	roots, _ := w.Observe()
+	for _, ro := range roots {
+		rr.WarmC = append(rr.WarmC, "|"+ro.Ti)
+		for _, a := range ro.Abs {
+			rr.WarmC = append(rr.WarmC, absToken(a))
+		}
+	}
+	func() {
+		defer func() {
+			if e := recover(); e != nil {
+				rr.ColdC = append(rr.ColdC, fmt.Sprintf("cold read failed: %v", e))
+			}
+		}()
+		for _, ro := range w.ColdObserve() {
+			rr.ColdC = append(rr.ColdC, "|"+ro.Ti)
+			for _, a := range ro.Abs {
+				rr.ColdC = append(rr.ColdC, absToken(a))
+			}
+		}
+	}()
 }
 
 func runVariant(kind string, cfg runCfg, table map[int][4]uint64, ops []Op, v Variant, t int, seed int64) RunRec {
@@ -109,9 +142,28 @@ func runVariant(kind string, cfg runCfg, table map[int][4]uint64, ops []Op, v Va
 		w = newArrayWorld(cfg.T)
 	}
 	w.RawIDs = true
-	rr := RunRec{T: t, Ev: "Run", Variant: v.Name, Results: []string{}, Abs: []string{}, Regs: []string{}, Errors: []string{}, Kind: kind}
+	rr := RunRec{T: t, Ev: "Run", Variant: v.Name, Results: []string{}, Abs: []string{}, Regs: []string{}, Errors: []string{}, Kind: kind, Cold: []string{}, WarmC: []string{}, ColdC: []string{}}
 	for i, op := range ops {
 		op := op
+		if op.Op == "commit" || op.Op == "dropcache" || op.Op == "crash" {
+			// the history's own persistence events (nested walks with Persist: the model retires handles accordingly)
+			rr.Results = append(rr.Results, "P")
+			switch {
+			case op.Op == "commit" && v.Strip == "all", op.Op == "dropcache" && (v.Strip == "drops" || v.Strip == "all"):
+				continue
+			case op.Op == "dropcache" && v.Strip == "reopen":
+				op.Op = "crash"
+			}
+			if op.Op == "commit" {
+				w.commitUntilSuccess(v.Mode, v.Workers, v.Faults, rng, &rr)
+				continue
+			}
+			if _, res := w.Exec(op); res.Class != "ok" {
+				rr.Errors = append(rr.Errors, op.Op+" failed: "+res.Class+" "+res.Cat)
+				break
+			}
+			continue
+		}
 		ev, res := w.ExecAny(&op)
 		rr.Results = append(rr.Results, resToken(ev, res))
 		if kind == "nested" && res.Class != "ok" {
@@ -172,6 +224,19 @@ func runVariant(kind string, cfg runCfg, table map[int][4]uint64, ops []Op, v Va
 	for _, r := range w.RegObs() {
 		rr.Regs = append(rr.Regs, r.Key+"="+r.Sum)
 	}
+	func() {
+		// freshly decoded from the ledger: must be what the cached slabs say (a decode failure is recorded, not fatal)
+		defer func() {
+			if e := recover(); e != nil {
+				rr.Errors = append(rr.Errors, fmt.Sprintf("cold read failed: %v", e))
+			}
+		}()
+		for _, ro := range w.ColdObserve() {
+			for _, a := range ro.Abs {
+				rr.Cold = append(rr.Cold, absToken(a))
+			}
+		}
+	}()
 	return rr
 }
 
@@ -224,7 +289,7 @@ func cmdMultiRun(args []string) {
 			} else {
 				op = parseTupleOp(r, h)
 			}
-			if op.Op == "commit" || op.Op == "dropcache" || op.Op == "crash" {
+			if (op.Op == "commit" || op.Op == "dropcache" || op.Op == "crash") && !(len(vs) > 0 && vs[0].KeepP) {
 				continue
 			}
 			ops = append(ops, op)
